@@ -2,7 +2,7 @@
    clean.  Statements only; the fan-out model of C01/C02. *)
 From Lal Require Import Common.LBytes Group.GroupMsg Group.GroupGopCache Group.GroupFanout
   Group.GroupGopCacheProofs Group.GroupFanoutProofs Group.GroupFanoutCacheProofs Group.GroupFanoutAdmitProofs
-  Group.GroupFanoutRestartProofs Group.GroupIdle Group.GroupIdleProofs.
+  Group.GroupFanoutRestartProofs Group.GroupFanoutHookProofs Group.GroupIdle Group.GroupIdleProofs.
 Open Scope N_scope.
 
 (* Teardown (delIn): the input is gone, the FLV recording is closed with its
@@ -43,6 +43,23 @@ Theorem c16_clean_restart : forall cf h1 h2 w,
   Forall (label_ge n1) (prologue (g_rtmp_cache s) w) /\ Forall (label_ge n1) (prologue (g_flv_cache s) w).
 Proof. exact restart_prologue_fresh. Qed.
 Print Assumptions c16_clean_restart.
+
+(* The stream hook, over all histories.  What the hook has been told is a
+   function of the history alone ([hrun]: one entry per input, holding the
+   indices of exactly the non-empty messages published while that input was
+   attached, in order, each once), and OnStop was called exactly once for every
+   input that has ended and not yet for the one still attached ([hook_ok]).
+   The teardown is what calls it, and a repeated teardown does not call it again. *)
+Theorem c16_hook_once : forall cf h,
+  g_hook (run cf h) = hs_hook (hrun cf h) /\ hook_ok cf (g_in (run cf h)) (g_hook (run cf h)).
+Proof. intros cf h. split; [apply hook_follows_history|apply hook_once_run]. Qed.
+Print Assumptions c16_hook_once.
+
+Theorem c16_hook_stop : forall cf s, g_in s = true -> cf_hook cf = true ->
+  g_hook (step cf s EvInStop) = hook_stop (g_hook s) /\
+  g_hook (step cf (step cf s EvInStop) EvInStop) = hook_stop (g_hook s).
+Proof. exact in_stop_hook. Qed.
+Print Assumptions c16_hook_stop.
 
 (* Idle check (Group.disposeInactiveSessions + BasicSessionStat.isAlive): at a
    sweep (every 120th tick) a publisher whose connection read nothing since the
@@ -86,6 +103,12 @@ Definition c16_cfg : cfg :=
      cf_ts_gop := 1; cf_ts_max := 0; cf_merge := 0; cf_record_flv := true; cf_chunk := 4096; cf_ext_at_limit := false;
      cf_rtsp_wait := true; cf_hook := true; cf_record_ts := true |}.
 Definition c16_v (b0 b1 t : N) : rmsg := {| rm_type := 9; rm_ts := 0; rm_payload := [b0; b1; 0; 0; 0; t] |}.
+Example c16_hook_nonvacuous :
+  let h := [EvPublish (c16_v 23 0 9); EvInStart; EvPublish (c16_v 23 0 1); EvPublish {| rm_type := 8; rm_ts := 0; rm_payload := [] |};
+            EvPublish (c16_v 23 1 2); EvInStop; EvInStop; EvInStart; EvPublish (c16_v 23 1 3)] in
+  g_hook (run c16_cfg h) = [([4%nat], 0%nat); ([1%nat; 3%nat], 1%nat)].
+Proof. vm_compute. reflexivity. Qed.
+
 Example c16_nonvacuous :
   let h1 := [EvInStart; EvJoin KPush 7; EvPublish (c16_v 23 0 1); EvPublish (c16_v 23 1 2)] in
   let h2 := [EvInStart; EvPublish (c16_v 23 0 3); EvJoin KFlv 1; EvPublish (c16_v 23 1 4)] in
